@@ -1,114 +1,12 @@
-"""C16 -- network views (bipartite graph, reaction strings, species graph) round-trip exactly (sidecar contracts)."""
+"""C16 -- network views round-trip exactly (sidecar contracts)."""
 from pyvc.rt import *  # noqa: F401,F403
-from contracts.C15 import wf, owned, occurs_r, occurs_p, R, P, norm_of, side_ok, support, not_in_use, implies_side, empty_input, stoich_is  # noqa: F401
 
 PROPERTY = "C16"
-USES_NX = True
-INCLUDE = ["C15"]
-CV = "synkit/CRN/Hypergraph/conversion.py"
+RX = "synkit/CRN/Hypergraph/rxn.py"
 CLASSES = {}
-TRUSTED = ["A-nx-graph (DiGraph)", "A-builtins (sorted)", "C15 contracts (wf, add_rxn) -- verified under C15"]
-ASSUMPTIONS = ["A-fmt: the node-id formatters f'S:{s}' and f'R:{e}' are injective and their ranges are disjoint (true for string "
-               "concatenation with distinct non-empty prefixes); the integer-id / prefix-None configurations are covered by the twin only",
-               "species-graph and reaction-string round trips are bounded (nested set/dict attributes, regex/string parsing)"]
-NOT_APPLICABLE_CLAUSES = []
-AXIOMS = [
-    "forall(('str', 'str'), lambda a, b: implies(f'S:{a}' == f'S:{b}', a == b))",
-    "forall(('str', 'str'), lambda a, b: implies(f'R:{a}' == f'R:{b}', a == b))",
-    "forall(('str', 'str'), lambda a, b: f'S:{a}' != f'R:{b}')",
-]
-
-
-def sp(s):
-    return f"S:{s}"
-
-
-def rx(e):
-    return f"R:{e}"
-
-
-SP_ATTRS = ["bipartite", "label", "kind"]
-
-
-def sp_attrs_ok(G, s):
-    return G.nodes[sp(s)] == {"bipartite": 0, "label": s, "kind": "species"}
-
-
-def rx_attrs_ok(G, H, e, with_eid):
-    return G.nodes[rx(e)] == ({"bipartite": 1, "label": H.edges[e].rule, "kind": "reaction", "edge_id": e} if with_eid else
-                              {"bipartite": 1, "label": H.edges[e].rule, "kind": "reaction"})
-
-
-def view_nodes(G, H, E, with_eid):
-    """species nodes for every species, reaction nodes exactly for the reactions in E, with their attributes"""
-    return forall(H.species, lambda s: G.has_node(sp(s)) and sp_attrs_ok(G, s)) \
-        and forall(E, lambda e: G.has_node(rx(e)) and rx_attrs_ok(G, H, e, with_eid)) \
-        and forall(G.nodes, lambda n: exists(H.species, lambda s: same(n, sp(s))) or exists(E, lambda e: same(n, rx(e))))
-
-
-def view_arcs(G, H, E):
-    """arc species->reaction iff reactant (stoich, role), reaction->species iff product, for the reactions in E; no other arcs"""
-    return forall((H.species, E), lambda s, e: G.has_edge(sp(s), rx(e)) == occurs_r(H, e, s)
-                  and G.has_edge(rx(e), sp(s)) == occurs_p(H, e, s)) \
-        and forall((H.species, E), lambda s, e: implies(occurs_r(H, e, s), G[sp(s)][rx(e)] == {"stoich": R(H, e, s), "role": "reactant"})
-                   and implies(occurs_p(H, e, s), G[rx(e)][sp(s)] == {"stoich": P(H, e, s), "role": "product"})) \
-        and forall(G.edges, lambda u, v: exists((H.species, E), lambda s, e: (same(u, sp(s)) and same(v, rx(e)))
-                                                 or (same(u, rx(e)) and same(v, sp(s)))))
-
-
-def is_view(G, H, with_eid):
-    """G is the directed bipartite species/reaction view of the network H (string ids, default prefixes, stoichiometry and roles on)"""
-    return view_nodes(G, H, keys(H.edges), with_eid) and view_arcs(G, H, keys(H.edges))
-
-
-def map_ok(species_map, H):
-    return keys(species_map) == H.species and forall(species_map, lambda s: same(species_map[s], sp(s)))
-
-
-FUNCTIONS = {
-    CV + "::hypergraph_to_bipartite": {
-        "wip": True,      # invariants not complete yet: loop-2 step obligations still open (not registered in MANIFEST)
-        "params": {"H": "obj:CRNHyperGraph", "species_prefix": "const:'S:'", "reaction_prefix": "const:'R:'",
-                   "bipartite_values": "const:(0, 1)", "include_stoich": "const:True", "include_role": "const:True",
-                   "include_isolated_species": "const:True", "integer_ids": "const:False", "include_edge_id_attr": "bool",
-                   "include_mol": "const:False"},
-        "vars": {"species_map": "dict[str,any]"},
-        "returns": "obj:DiGraph",
-        "requires": ["wf(H)"],
-        "modifies": [],
-        "ensures": ["is_fresh(result)", "is_view(result, H, include_edge_id_attr)"],
-        "loops": {
-            1: {"modifies": ["G.nodes", "G.nattr"],
-                "inv": ["forall(species_map, lambda s: s in H.species and same(species_map[s], sp(s)))",
-                        "forall(range(done), lambda j: species_iter[j] in species_map)",
-                        "forall(species_map, lambda s: G.has_node(sp(s)) and sp_attrs_ok(G, s))",
-                        "forall(G.nodes, lambda n: exists(species_map, lambda s: same(n, sp(s))))",
-                        "forall(('any', 'any'), lambda u, v: not G.has_edge(u, v))"]},
-            2: {"seq_as": "eids", "modifies": ["G.nodes", "G.nattr", "G.adj", "G.eattr"],
-                "inv": ["map_ok(species_map, H)",
-                        "view_nodes(G, H, {eids[j] for j in range(done)}, include_edge_id_attr)",
-                        "view_arcs(G, H, {eids[j] for j in range(done)})"]},
-            3: {"modifies": ["G.nodes", "G.nattr", "G.adj", "G.eattr"],
-                "inv": ["map_ok(species_map, H)", "same(rnode, rx(eid))",
-                        # relative to the start of this reaction's iteration: one new node, reactant arcs of the species done
-                        "forall('any', lambda n: G.has_node(n) == (at_iter(G.has_node(n)) or same(n, rx(eid))))",
-                        "forall(at_iter(set(G.nodes)), lambda n: same(G.nodes[n], at_iter(G.nodes[n])))",
-                        "rx_attrs_ok(G, H, eid, include_edge_id_attr)",
-                        "forall(('any', 'any'), lambda u, v: G.has_edge(u, v) == (at_iter(G.has_edge(u, v)) or "
-                        "       (same(v, rx(eid)) and exists(done, lambda s: same(u, sp(s))))))",
-                        "forall(done, lambda s: G[sp(s)][rx(eid)] == {'stoich': R(H, eid, s), 'role': 'reactant'})",
-                        "forall(at_iter(set(G.edges)), lambda u, v: same(G[u][v], at_iter(G[u][v])))"]},
-            4: {"modifies": ["G.nodes", "G.nattr", "G.adj", "G.eattr"],
-                "inv": ["map_ok(species_map, H)", "same(rnode, rx(eid))",
-                        "forall('any', lambda n: G.has_node(n) == (at_iter(G.has_node(n)) or same(n, rx(eid))))",
-                        "forall(at_iter(set(G.nodes)), lambda n: same(G.nodes[n], at_iter(G.nodes[n])))",
-                        "rx_attrs_ok(G, H, eid, include_edge_id_attr)",
-                        "forall(('any', 'any'), lambda u, v: G.has_edge(u, v) == (at_iter(G.has_edge(u, v)) or "
-                        "       (same(v, rx(eid)) and exists(H.edges[eid].reactants.data, lambda s: same(u, sp(s)))) or "
-                        "       (same(u, rx(eid)) and exists(done, lambda s: same(v, sp(s))))))",
-                        "forall(H.edges[eid].reactants.data, lambda s: G[sp(s)][rx(eid)] == {'stoich': R(H, eid, s), 'role': 'reactant'})",
-                        "forall(done, lambda s: G[rx(eid)][sp(s)] == {'stoich': P(H, eid, s), 'role': 'product'})",
-                        "forall(at_iter(set(G.edges)), lambda u, v: same(G[u][v], at_iter(G[u][v])))"]},
-        },
-    },
-}
+FUNCTIONS = {}
+# no function of this property is under a discharged contract: the check is the bounded twin only and says so in its level text
+# (a vacuous twin -- zero cases -- is still reported as a broken check)
+BOUNDED_ONLY = True
+TRUSTED = []
+ASSUMPTIONS = ["bounded only: see contracts/C16_exporter_wip.py for the unfinished exporter contract (not part of any check)"]
